@@ -221,7 +221,7 @@ Section RoundTrip.
       destruct X; try discriminate HX; destruct v; try (exfalso; apply Hv; reflexivity);
         cbn [unstructure_node strip_opt] in *; exact Hu.
     - specialize (Hnn Hv). rewrite S_unfold in *.
-      destruct X as [| | | | | | | | | |X0|X0|X0|c|c]; try discriminate HX.
+      destruct X as [| | | | | | | | | |X0|X0|X0|c|vals|c]; try discriminate HX.
       all: try (destruct j; try (exfalso; apply Hnn; reflexivity);
                 cbn [structure_node structure_str strip_opt] in *; exact Hs).
       + (* TDict *) destruct X0; try discriminate HX;
@@ -356,6 +356,8 @@ Section RoundTrip.
     - leaf (JInt z).
     - leaf (JFloat z).
     - leaf (JStr s).
+    - leaf (JStr s). cbn [structure structure_str].
+      match goal with H : mem_str s _ = true |- _ => rewrite H end. reflexivity.
     - leaf (JStr (b64enc b)). cbn [structure structure_str]. rewrite H_b64. reflexivity.
     - leaf (JStr s). cbn [structure structure_str]. unfold structure_datetime.
       match goal with H : replace_Z s = s |- _ => rewrite H end.
